@@ -17,6 +17,38 @@ pub(crate) struct Peer {
     pub(crate) send_queue: ZmqFramedWrite,
 }
 
+/// A peer's turn in the round-robin rotation while a send to it is in flight.
+///
+/// The id goes back into the queue when this is dropped, which also covers a send future
+/// that is dropped while it waits for the connection (a timeout around `send`, a
+/// `select!`): the peer is still connected, so it keeps its place in the rotation. Only
+/// a peer that turned out to be gone is taken out with `forget`.
+pub(crate) struct Turn<'a> {
+    queue: &'a SegQueue<PeerIdentity>,
+    id: Option<PeerIdentity>,
+}
+
+impl<'a> Turn<'a> {
+    pub(crate) fn new(queue: &'a SegQueue<PeerIdentity>, id: PeerIdentity) -> Self {
+        Self {
+            queue,
+            id: Some(id),
+        }
+    }
+
+    pub(crate) fn forget(&mut self) {
+        self.id = None;
+    }
+}
+
+impl Drop for Turn<'_> {
+    fn drop(&mut self) {
+        if let Some(id) = self.id.take() {
+            self.queue.push(id);
+        }
+    }
+}
+
 pub(crate) struct GenericSocketBackend {
     pub(crate) peers: Arc<scc::HashMap<PeerIdentity, Peer>>,
     fair_queue_inner: Option<Arc<Mutex<QueueInner<ZmqFramedRead, PeerIdentity>>>>,
@@ -62,16 +94,21 @@ impl GenericSocketBackend {
                     }
                 },
             };
+            let mut turn = Turn::new(&self.round_robin, next_peer_id.clone());
             let send_result = match self.peers.get_async(&next_peer_id).await {
                 Some(mut peer) => peer.send_queue.send(message).await,
-                None => continue,
+                None => {
+                    turn.forget();
+                    continue;
+                }
             };
             return match send_result {
                 Ok(()) => {
-                    self.round_robin.push(next_peer_id.clone());
+                    drop(turn);
                     Ok(next_peer_id)
                 }
                 Err(e) => {
+                    turn.forget();
                     self.peer_disconnected(&next_peer_id);
                     Err(e.into())
                 }
